@@ -67,6 +67,42 @@ pub fn selftest_main(full: bool) -> i32 {
             bad += 1;
         }
     }
+    // the Inside environment: the case really runs in the middle of the
+    // outer call (once), and after it when the outer call is shorter
+    {
+        use crate::env::{inside, Outer};
+        let mut report = Vec::new();
+        let mut ok = true;
+        for outer in [Outer::EncodeControl, Outer::EncodeAvp, Outer::DecodeControl, Outer::Greedy] {
+            let mut nested_upto = 0u8;
+            for at in 1..=60u8 {
+                let mut ran = 0;
+                // (a control encode with the library unlocked succeeds: the
+                // nested use is an ordinary, complete call)
+                let r = inside(outer, at, || {
+                    ran += 1;
+                    let mut r = SliceReader::from(&[0x13u8, 0x20, 0, 12, 0, 1, 0, 2, 0, 3, 0, 4][..]);
+                    Message::<&[u8]>::try_read(&mut r).is_ok()
+                });
+                if ran != 1 || !r {
+                    ok = false;
+                }
+                if at == nested_upto + 1 && crate::env::last_inside_was_nested() {
+                    nested_upto = at;
+                }
+            }
+            if nested_upto < 5 {
+                ok = false;
+            }
+            report.push(format!("{outer:?} 1..={nested_upto}"));
+        }
+        if ok {
+            println!("selftest: Inside environment runs the case once, nested in seam calls {}", report.join(", "));
+        } else {
+            println!("SELFTEST-FAIL Inside environment: {}", report.join(", "));
+            bad += 1;
+        }
+    }
     match crate::collisions::verify_keystreams() {
         Ok(n) => println!("selftest: {n} key streams with a zero word verified"),
         Err(e) => {
